@@ -8,7 +8,7 @@
 (* after the call; the trace is accepted iff every line is explained.      *)
 (* Executions are concatenated, separated by Reset events.                 *)
 (***************************************************************************)
-EXTENDS Api, Json, IOUtils, TLC
+EXTENDS Api, Printer, Json, IOUtils, TLC
 
 TraceLog == ndJsonDeserialize(IOEnv.TRACE)
 
@@ -85,7 +85,15 @@ TCall ==
         /\ (r.ret = "fail" => (~Ev.ok /\ SecMatch(ObsSec(r.root), Ev.obs)))
   /\ UNCHANGED <<pcfg, cbn>>
 
-Next == TInit \/ TReset \/ TSkip \/ TParse \/ TCall
+(* cfg_print of the whole context: the text the driver captured, line by line *)
+TPrint ==
+  /\ ~dead /\ IsEvent("Print")
+  /\ LET ls == PrintCfg(root, 0)
+     IN /\ Len(ls) = Len(Ev.lines)
+        /\ \A i \in 1..Len(ls) : ls[i].text = Ev.lines[i]
+  /\ UNCHANGED <<root, pcfg, dead, cbn>>
+
+Next == TInit \/ TReset \/ TSkip \/ TParse \/ TCall \/ TPrint
 Spec == Init /\ [][Next]_vars
 
 (* debugging aid: the specification's observation after every consumed line *)
